@@ -1,6 +1,7 @@
 import Propka.Model.Pipeline
 import Propka.Model.TopUp
 import Propka.Model.Pdb
+import Propka.Model.Dets
 /-! The program as one function: PDB lines and options in, the records of every group of every conformation out.
     `run` composes the parser model (`Pdb.parse`: `get_atom_lines_from_pdb`), `read_pdb` (conformations in sorted order),
     `top_up_conformations`, the set-up pipeline (`Pipe.prepare`) and the scoring model (`Scoring.score`), as
@@ -70,6 +71,87 @@ def scorePrepared (sp : Scoring.SP α) (r : Pipe.Prepared α) : List (Scoring.GO
     | none => ⟨"", true, 0⟩
   Scoring.score sp (Scoring.envOf apos gpos ares (fun g => ares (gr.get g).atom) gid) atab gr
 
+/-! ### `average_of_conformations` -/
+/-- `Atom.residue_label` of an atom of the set-up state -/
+def atomLabel (a : Pipe.PAtom α) : String :=
+  Pipe.padR 3 a.name ++ Pipe.padL 4 (toString a.resNum) ++ Pipe.padL 2 a.chain ++ str (strip a.icode.toList)
+
+/-- what identifies a determinant's partner for `Group.__eq__` / `Iterative.__eq__`: the printed label, and the residue number
+    for a hetero group -/
+def partnerId (r : Pipe.Prepared α) (g : Nat) : String :=
+  match r.groups[g]? with
+  | none => ""
+  | some gr =>
+    let a := r.atoms.getD gr.atom Pipe.PAtom.dflt
+    if a.het then gr.label ++ "#" ++ toString a.resNum else gr.label
+
+def detsOf (r : Pipe.Prepared α) (ds : List (Scoring.Det α)) : List (Dets.Det α) :=
+  ds.map fun d => ⟨partnerId r d.partner, ((r.groups[d.partner]?).map (·.label)).getD "", d.value⟩
+
+/-- a group of a scored conformation as the averaging sees it -/
+structure Scored (α : Type) where
+  resLabel : String          -- `group.atom.residue_label`
+  type : String
+  resType : String
+  label : String
+  use : Bool                 -- `use_in_calculations()`
+  model : α
+  nv : α
+  buried : α
+  grec : Dets.GRec α
+
+def scoredOf (r : Pipe.Prepared α) (outs : List (Scoring.GOut α)) : List (Scored α) :=
+  (r.groups.toList.zip outs).map fun go =>
+    let g := go.1
+    let o := go.2
+    let a := r.atoms.getD g.atom Pipe.PAtom.dflt
+    { resLabel := atomLabel a, type := g.type, resType := g.resType, label := g.label,
+      use := g.titratable || (g.resType == "CYS" && !g.excludeCys), model := g.model, nv := ((o.nv : Nat) : α), buried := o.buried,
+      grec := ⟨g.label, g.model, o.evol, o.eloc, detsOf r o.sc, detsOf r o.bb, detsOf r o.cb, o.pka, a.bridged, []⟩ }
+
+/-- a group of the average conformation -/
+structure AvrGroup (α : Type) where
+  label : String
+  type : String
+  resType : String
+  model : α
+  nv : α
+  buried : α
+  acc : Dets.Acc α
+
+/-- `Group.add_determinant`: add to the first determinant towards an equal partner, else append `Determinant(partner, value)`
+    (its label is the partner's label; no interactions are swapped in this model, so that is the label the determinant carries) -/
+def addDetL : List (Dets.Det α) → Dets.Det α → List (Dets.Det α)
+  | [], d => [d]
+  | x :: xs, d => if x.grp = d.grp then { x with value := x.value + d.value } :: xs else x :: addDetL xs d
+
+/-- `Group.__iadd__` -/
+def iaddL (a : Dets.Acc α) (g : Dets.GRec α) : Dets.Acc α :=
+  { pka := a.pka + g.pka, evol := a.evol + g.evol, eloc := a.eloc + g.eloc,
+    sc := g.sc.foldl addDetL a.sc, bb := g.bb.foldl addDetL a.bb, cb := g.cb.foldl addDetL a.cb }
+
+/-- the mean of the records found for one group: the clone starts from zero, every record found is added, the sum is divided by
+    their number -/
+def averageL (z : α) (found : List (Dets.GRec α)) : Dets.Acc α :=
+  Dets.divAcc (found.foldl iaddL ⟨z, z, z, [], [], []⟩) ((found.length : Nat) : α)
+
+/-- `find_group(group)`: the first group of a conformation with the residue label and the type -/
+def findGroup (conf : List (Scored α)) (g : Scored α) : Option (Scored α) :=
+  conf.find? fun h => h.resLabel == g.resLabel && h.type == g.type
+
+/-- `average_of_conformations`: every reported group of every conformation, once (first come); each is the mean over the
+    conformations in which `find_group` finds it -/
+def averageOf (confs : List (List (Scored α))) : List (AvrGroup α) :=
+  let z : α := ((0:Nat):α)
+  (confs.foldl (fun (acc : List (Scored α × AvrGroup α)) conf =>
+    (conf.filter (·.use)).foldl (fun acc g =>
+      if acc.any (fun e => e.1.resLabel == g.resLabel && e.1.type == g.type) then acc
+      else
+        let found := confs.filterMap fun c => findGroup c g
+        acc ++ [(g, { label := g.label, type := g.type, resType := g.resType, model := g.model,
+                      nv := Dets.avgScalar z (found.map (·.nv)), buried := Dets.avgScalar z (found.map (·.buried)),
+                      acc := averageL z (found.map (·.grec)) })]) acc) []).map (·.2)
+
 /-- what the program computes for one conformation: the prepared state and the record of every group (`none`: the set-up raised) -/
 abbrev ConfOut (α : Type) := String × Option (Pipe.Prepared α × List (Scoring.GOut α))
 
@@ -85,6 +167,10 @@ def run (P : Pipe.PP α) (sp : Scoring.SP α) (dec : Int → Nat → α) (po : P
   match parse po lines with
   | .error e => .error e
   | .ok recs => if recs.isEmpty then .error .valueError else .ok (afterParse P sp dec o recs)
+
+/-- the average conformation of a run (`none` when the set-up of a conformation raised) -/
+def averageRun (outs : List (ConfOut α)) : Option (List (AvrGroup α)) :=
+  (outs.mapM fun (c : ConfOut α) => c.2.map fun ro => scoredOf ro.1 ro.2).map averageOf
 end
 
 end Propka.Program
